@@ -221,26 +221,28 @@ class Column:
                 col.parent = parent
             return col
 
-        source_columns = set()
+        # keep the order of the FROM clause instead of set order, so that the result does not vary with hash seed
+        tables = list(dict.fromkeys(alias_mapping.values()))
+        source_columns: dict[Column, None] = {}
         for src_col, qualifier in self.source_columns:
             if qualifier is None:
                 if src_col == "*":
                     # select *
-                    for table in set(alias_mapping.values()):
-                        source_columns.add(_to_src_col(src_col, table))
+                    for table in tables:
+                        source_columns[_to_src_col(src_col, table)] = None
                 else:
                     # select unqualified column
                     source = _to_src_col(src_col, None)
-                    for table in set(alias_mapping.values()):
+                    for table in tables:
                         # in case of only one table, we get the right answer
                         # in case of multiple tables, a bunch of possible tables are set
                         source.parent = table
-                    source_columns.add(source)
+                    source_columns[source] = None
             else:
                 if alias_mapping.get(qualifier):
-                    source_columns.add(
+                    source_columns[
                         _to_src_col(src_col, alias_mapping.get(qualifier))
-                    )
+                    ] = None
                 else:
-                    source_columns.add(_to_src_col(src_col, Table(qualifier)))
-        return source_columns
+                    source_columns[_to_src_col(src_col, Table(qualifier))] = None
+        return list(source_columns)
